@@ -366,6 +366,20 @@ fn run_hugeslice(ctx: &Ctx) -> CheckResult {
             return Err(ctx.violation("hugeslice", m, json!({"variant": vs[i].v().name, "pre": pre, "len": len, "room": room})));
         }
     }
+    if !quick {
+        // the one-call helper with a buffer longer than 2^32 bytes: too large, no panic
+        let res = par_map(ctx.threads, &vs, |va| catch(|| va.hash_buf(&big)));
+        for (va, r) in vs.iter().zip(res) {
+            ctx.ev.borrow_mut().evaluations += 1;
+            match r {
+                Ok(None) | Ok(Some(Err(GErr::TooLarge))) => {}
+                other => {
+                    let m = format!("{}: hash_buf_for over {} bytes gave {:?}; expected TooLargeInput", va.v().name, big.len(), other.map(|o| o.map(|r| r.map(|h| h.display()))));
+                    return Err(ctx.violation("hugeslice", m, json!({"variant": va.v().name, "pre": 0, "len": HUGE, "room": null})));
+                }
+            }
+        }
+    }
     ctx.ev.borrow_mut().sample(json!({"check": "hugeslice", "slice_lens": "2^32, 2^32+4, 2^32+300, 2^32+4095, 2^32+4096", "jobs": jobs.len()}));
     Ok(())
 }
